@@ -168,7 +168,7 @@ func panicSite(stack string) string {
 	for i, l := range lines {
 		if strings.Contains(l, "lightning-node-connect/gbn.") && !strings.Contains(l, "/vrt") {
 			fn := strings.TrimSpace(l)
-			if j := strings.IndexByte(fn, '('); j > 0 {
+			if j := strings.LastIndexByte(fn, '('); j > 0 {
 				fn = fn[:j]
 			}
 			if k := strings.LastIndex(fn, "/gbn."); k >= 0 {
@@ -626,6 +626,19 @@ func finalKeepaliveDead(w *World, x *vrt.Exec) {
 				w.fail("keepalive/call-hangs-after-detection/"+e.Name+"/"+c.Kind,
 					"%s detected the dead peer at %v but its %s started at %v never returned", e.Name, e.closedAt, c.Kind, c.Start)
 			}
+		}
+	}
+}
+
+// finalDeadlock: after the drain every thread must have finished; one that
+// is still waiting for a lock, a Once or a WaitGroup is a deadlock.
+func finalDeadlock(w *World, x *vrt.Exec) {
+	for _, l := range x.Leftover {
+		site := l[strings.IndexByte(l, '@')+1:]
+		if strings.HasSuffix(site, ":Lock") || strings.HasSuffix(site, ":RLock") ||
+			strings.Contains(site, "Once.Do") || strings.Contains(site, "WaitGroup.Wait") {
+			w.fail("deadlock/"+l, "thread %s is still blocked at %s after the run and the drain: lock-order or wait deadlock (all left over: %v)",
+				l[:strings.IndexByte(l, '@')], site, x.Leftover)
 		}
 	}
 }
